@@ -317,12 +317,22 @@ def run(name, prop, tier, seed, known, lock):
         return run_guards(prop, tier, seed, known, lock)
     if name == 'cachekeys':
         return run_cachekeys(prop, tier, seed, known, lock)
+    if name == 'boundedprops':
+        return run_boundedprops(prop, tier, seed, known, lock)
     raise KeyError(name)
 
 
 def replay(d):
     if d.get('engine') == 'precframe':
         return replay_precframe(d)
+    if d.get('engine') == 'boundedprops':
+        r = run_boundedprops(d.get('property'), 'quick', 0, {'findings': []}, {})
+        for v in r['violations']:
+            if v[0] == d.get('obligation'):
+                print('bounded check still fails:', v[1]['model_args'], v[1]['replay']['observed'])
+                print('VIOLATION property=%s replay=%s' % (d.get('property'), d.get('obligation')))
+                return 1
+        return 0
     if d.get('engine') == 'cachekeys':
         r = run_cachekeys(d.get('property'), 'quick', 0, {'findings': []}, {})
         for v in r['violations']:
@@ -796,4 +806,39 @@ def run_cachekeys(prop, tier, seed, known, lock):
             out['undecided'].append((key, 'cache contract %s (%s)' % (r['status'], r.get('reason'))))
     out['obligations'] = len(out['records'])
     out['discharged'] = sum(1 for k, rc, u in out['records'] if rc['status'] == 'proved')
+    return out
+
+
+# ======================================================================================= bounded property tiers
+
+def run_boundedprops(prop, tier, seed, known, lock):
+    os.environ.setdefault('MPMATH_NOGMPY', '1')
+    for p in (REPO, HERE):
+        if p not in sys.path:
+            sys.path.insert(0, p)
+    from pyvc import boundedprops as B
+    from pyvc.check import write_replay, finding_matches
+    out = {'obligations': 0, 'discharged': 0, 'records': [], 'violations': [], 'undecided': [],
+           'known_hits': [], 'errors': [], 'samples': [], 'functions': [], 'assumptions': [
+               'bounded tier: exact rational / integer arithmetic of CPython (fractions, math) is the oracle; nothing outside the enumerated domain is covered'],
+           'coverage': {}}
+    n, d, fails, samples, rule = B.CHECKS[prop](seed, tier)
+    out['samples'] = samples
+    out['coverage'] = {'evaluations': n, 'distinct_nontrivial': d, 'rule': rule}
+    seen = set()
+    for f in fails:
+        cls = f.get('class') or f.get('fn') or 'general'
+        key = 'bounded|%s|%s' % (prop, cls)
+        if key in seen:
+            continue
+        seen.add(key)
+        rec = {'name': key, 'kind': 'bounded', 'clause': cls, 'status': 'sat', 'model_args': {k: v for k, v in f.items() if k != 'observed'},
+               'replay': {'status': 'reproduced', 'observed': f['observed']}, 'engine': 'boundedprops', 'solver': 'native-bounded'}
+        unit = {'target': key, 'enum': {}, 'file': None}
+        kf = [k for k in known.get('findings', []) if finding_matches(k, prop, key, rec)]
+        if kf:
+            out['known_hits'].append((kf[0], key, rec))
+        else:
+            path = write_replay(prop, unit, rec, 'bounded exact-oracle check failed on the real code')
+            out['violations'].append((key, rec, path, ''))
     return out
